@@ -111,6 +111,7 @@ type vfSession struct {
 	c2s     *vfLink
 	s2c     *vfLink
 	tunC2S  *vfLink // tap of the client's tunnel connection (nil without a tunnel)
+	tunConn net.Conn // the client's tunnel connection itself
 	tunS2C  *vfLink
 	srvOut  *vfFeedReader
 
@@ -178,6 +179,9 @@ func vfNewSession(o vfSessOpts) *vfSession {
 				return nil
 			}
 			tc := &vfTapConn{Conn: conn, s: s}
+			s.mu.Lock()
+			s.tunConn = conn
+			s.mu.Unlock()
 			s.tunC2S.out = func(b []byte) { _, _ = conn.Write(b) }
 			return tc
 		})
@@ -212,14 +216,50 @@ func (c *vfTapConn) Write(p []byte) (int, error) {
 }
 
 func (c *vfTapConn) Read(p []byte) (int, error) {
-	n, err := c.Conn.Read(p)
-	if n > 0 {
-		if c.rhello.CompareAndSwap(false, true) {
-			return n, err
+	for {
+		n, err := c.Conn.Read(p)
+		if n > 0 {
+			if c.rhello.CompareAndSwap(false, true) {
+				return n, err
+			}
+			c.s.tunS2C.feed(p[:n])
+			c.s.tunS2C.mu.Lock()
+			silent := c.s.tunS2C.silent
+			c.s.tunS2C.mu.Unlock()
+			if silent && err == nil {
+				continue // the server-to-client direction of the tunnel has gone silent: the bytes are dropped
+			}
+			if silent {
+				n = 0
+			}
 		}
-		c.s.tunS2C.feed(p[:n])
+		return n, err
 	}
-	return n, err
+}
+
+// wire returns the link that carries the protocol lines of one direction: the tapped tunnel connection once the client uses a
+// tunnel, the in-band link otherwise.
+func (s *vfSession) wire(dir string) *vfLink {
+	if s.tunC2S != nil && len(s.tunC2S.messages()) > 0 {
+		if dir == "c2s" {
+			return s.tunC2S
+		}
+		return s.tunS2C
+	}
+	if dir == "c2s" {
+		return s.c2s
+	}
+	return s.s2c
+}
+
+// breakTunnel closes the client's tunnel connection under its feet (a TCP connection that breaks).
+func (s *vfSession) breakTunnel() {
+	s.mu.Lock()
+	c := s.tunConn
+	s.mu.Unlock()
+	if c != nil {
+		c.Close()
+	}
 }
 
 // vfFailableWriter is the client's connection towards the server; the harness can make it return errors.
